@@ -137,6 +137,23 @@ __CPROVER_ensures(!(version >= 2 && has_sounding_delays) ||
                    : (SPEC_U16BE(cursor + 65) == ins->delay_on_ms && SPEC_U16BE(cursor + 67) == ins->delay_off_ms)))
 ;
 
+
+/* Frame-only contracts of the record codec (same preconditions and frames as the full contracts above, no value
+ * postconditions).  Used at the call sites inside the bank-file loops, where only memory safety and the frame
+ * matter; each is itself enforced against the real function (groups ins_parse_frame / ins_write_frame). */
+static void contract_parse_frame(WOPNInstrument *ins, uint8_t *cursor, uint16_t version, uint8_t has_sounding_delays)
+__CPROVER_requires(__CPROVER_is_fresh(ins, sizeof(WOPNInstrument)))
+__CPROVER_requires(__CPROVER_is_fresh(cursor, SPEC_INS_SIZE(version, has_sounding_delays)))
+__CPROVER_assigns(*ins)
+__CPROVER_ensures(ins->inst_name[31] == 0 && (ins->inst_flags & ~WOPN_Ins_IsBlank) == 0);
+
+static void contract_write_frame(WOPNInstrument *ins, uint8_t *cursor, uint16_t version, uint8_t has_sounding_delays)
+__CPROVER_requires(__CPROVER_is_fresh(ins, sizeof(WOPNInstrument)))
+__CPROVER_requires(__CPROVER_is_fresh(cursor, SPEC_INS_SIZE(version, has_sounding_delays)))
+__CPROVER_assigns((version >= 2 && has_sounding_delays) : __CPROVER_object_upto(cursor, 69))
+__CPROVER_assigns(!(version >= 2 && has_sounding_delays) : __CPROVER_object_upto(cursor, 65))
+__CPROVER_ensures(cursor[35] == ins->fbalg);
+
 /* ---- spec: OPNI single-instrument file -------------------------------------------------------------- */
 #define SPEC_VERSION_EFF(v) ((v) == 0 ? 2 : (v))
 #define SPEC_OPNI_SIZE(v) ((size_t)(11 + 1 + (SPEC_VERSION_EFF(v) > 1 ? 2 : 0) + 65))
